@@ -191,6 +191,9 @@ PI == "pathItems"
 PathItemShapes(st) ==
    {[shape |-> "pi_direct", u |-> U(<<Slot(A1, PI, "x", Conc("X", <<>>))>>, R(Root, A1, PI, "x", st), PI)],
     [shape |-> "pi_wholefile_plain", u |-> U(<<Slot(W1, PI, "", Conc("W", <<>>))>>, RW(Root, W1, st), PI)],
+    \* a path of the root document that is a reference to ANOTHER path of the same document (a local reference that does
+    \* not point into components)
+    [shape |-> "pi_local", u |-> U(<<Slot(Root, PI, "x", Conc("X", <<>>))>>, R(Root, Root, PI, "x", st), PI)],
     [shape |-> "pi_dangling", u |-> U(<<Slot(A1, PI, "x", Conc("X", <<>>))>>, R(Root, A1, PI, "missing", st), PI)],
     [shape |-> "pi_danglingfile", u |-> U(<<Slot(A1, PI, "x", Conc("X", <<>>))>>, RW(Root, C1, st), PI)]}
    \cup UNION {
@@ -225,6 +228,7 @@ QuickSlice(sh, st, e, pos) ==
    \/ (st \in AbsStyles /\ sh.shape \in {"direct", "child", "wholefile"} /\ e = "datapath" /\ pos = "op")
    \/ sh.shape = "otherhost_samepath"
    \/ (sh.shape \in {"collection", "collection_local"} /\ st = "plain" /\ e \in {"file_abs", "data"})
+   \/ (sh.shape = "pi_local" /\ st = "plain" /\ e \in {"file_abs", "data"})
    \/ (sh.shape = "childdangling_whole" /\ st = "plain" /\ e \in {"file_abs", "file_rel"} /\ pos = "op")
    \/ (sh.shape = "samepath_twohosts" /\ st = "plain" /\ e \in {"file_abs", "uri_remote", "datapath"})
    \/ (sh.shape = "deepfragment" /\ e \in {"file_abs", "file_rel"})
